@@ -4,6 +4,13 @@
      -DC12_SIM      MPI without MPI I/O (token passing fallback) on the simulated MPI, P ranks in one process
      -DC12_SERIAL   without MPI; a collective operation of P logical ranks is performed as P successive calls
      -DC12_REALMPI  MPI with MPI I/O under mpirun (cases from the file argv[1], output to argv[2].<rank>)
+     -DC12_SIMIO    MPI with MPI I/O on the simulated MPI (libsc built with SC_ENABLE_MPIIO and -include c12_mpiio.h): the MPI I/O
+                    functions are the MOCK below, whose behaviour is the executable specification coq/C12/MpiioModel.v
+                    (m_open, m_set_size, m_close, m_write_at, m_read_at): one file, one amode per open, collective calls
+                    synchronise and take effect in rank order, error codes injected by the fault plan (fn = 20..28:
+                    open, set_size, close, read_at, write_at, read_at_all, write_at_all, read, write).  Every call is a trace
+                    note `mio <fn> <args> -> <error code> <bytes> [<data>]`; the MPI calls the mock makes itself are bracketed
+                    by the notes `mio-hide 1` / `mio-hide 0` and dropped by the check.
 
    stdin: one scenario per line (decimal numbers, blank separated):
      <P> <seed> <adversary> <dataseed> <pathkind> <init> F <nf> {<rank> <fn> <k> <errno> <short>}*nf OPS <nops> op...
@@ -37,6 +44,9 @@
 #include <sys/stat.h>
 #include <unistd.h>
 #include <fcntl.h>
+#ifdef C12_SIMIO
+#define C12_SIM
+#endif
 #ifdef C12_SIM
 #include <simmpi.h>
 #endif
@@ -60,7 +70,8 @@ static struct
   char                path[512];
   fault_t             faults[MAXF];
   int                 nf;
-  int                 calls[MAXR][7];
+  int                 calls[MAXR][32];
+  int                 mopen;            /* C12_SIMIO: MPI file handles currently open (all ranks) */
   FILE               *tracked[MAXT];
   int                 ntracked, nfopen, nfclose;
   int                 lrank;            /* logical rank in the serial configuration */
@@ -299,6 +310,254 @@ __wrap_fclose (FILE * f)
   errno = e;
   return r;
 }
+
+#ifdef C12_SIMIO
+/* ------------------------------------------------------------------ mock MPI I/O (specification: coq/C12/MpiioModel.v) */
+struct c12_mfile
+{
+  int                 amode;
+  long long           pos;      /* individual file pointer (MPI_File_read / MPI_File_write) */
+  MPI_Comm            comm;
+};
+enum { K_MOPEN = 20, K_MSETSIZE, K_MCLOSE, K_MREADAT, K_MWRITEAT, K_MREADATALL, K_MWRITEATALL, K_MREAD, K_MWRITE };
+
+static const fault_t *
+mio_fault (int kind, int rank)
+{
+  int                 k = G.calls[rank % MAXR][kind]++;
+  for (int i = 0; i < G.nf; ++i)
+    if (G.faults[i].rank == rank && G.faults[i].fn == kind && G.faults[i].k == k)
+      return &G.faults[i];
+  return NULL;
+}
+
+static int
+mio_can_read (int a) { return (a & (MPI_MODE_RDONLY | MPI_MODE_RDWR)) != 0; }
+static int
+mio_can_write (int a) { return (a & (MPI_MODE_WRONLY | MPI_MODE_RDWR)) != 0; }
+static int
+mio_amode_valid (int a)
+{
+  int                 n = !!(a & MPI_MODE_RDONLY) + !!(a & MPI_MODE_WRONLY) + !!(a & MPI_MODE_RDWR);
+  return n == 1 && !((a & MPI_MODE_RDONLY) && (a & (MPI_MODE_CREATE | MPI_MODE_EXCL)));
+}
+
+/* a collective decision: all ranks arrive, rank 0 computes *e (and performs the effect), everybody learns it */
+#define MIO_COLLECTIVE_BEGIN(comm) do { emit ("mio-hide 1"); MPI_Barrier (comm); } while (0)
+#define MIO_COLLECTIVE_END(comm, e) do { MPI_Bcast (&(e), 1, MPI_INT, 0, comm); emit ("mio-hide 0"); } while (0)
+
+int
+MPI_File_open (MPI_Comm comm, const char *filename, int amode, MPI_Info info, MPI_File * fh)
+{
+  int                 e = MPI_SUCCESS, rank;
+  char                buf[128];
+  MPI_Comm_rank (comm, &rank);
+  MIO_COLLECTIVE_BEGIN (comm);
+  if (rank == 0) {
+    const fault_t      *ft = mio_fault (K_MOPEN, 0);
+    struct stat         st;
+    if (ft)
+      e = ft->err;
+    else if (!mio_amode_valid (amode))
+      e = MPI_ERR_AMODE;
+    else if (stat (filename, &st) != 0) {
+      /* missing: the directory or the file */
+      char                dir[512];
+      snprintf (dir, sizeof dir, "%s", filename);
+      char               *sl = strrchr (dir, '/');
+      if (sl) *sl = 0;
+      if (sl && stat (dir, &st) != 0)
+        e = MPI_ERR_NO_SUCH_FILE;
+      else if (amode & MPI_MODE_CREATE) {
+        int                 fd = open (filename, O_WRONLY | O_CREAT, 0644);
+        if (fd < 0) e = MPI_ERR_ACCESS; else close (fd);
+      }
+      else
+        e = MPI_ERR_NO_SUCH_FILE;
+    }
+    else if (S_ISDIR (st.st_mode))
+      e = MPI_ERR_BAD_FILE;
+    else if ((amode & MPI_MODE_CREATE) && (amode & MPI_MODE_EXCL))
+      e = MPI_ERR_FILE_EXISTS;
+  }
+  MIO_COLLECTIVE_END (comm, e);
+  if (e == MPI_SUCCESS) {
+    *fh = (MPI_File) calloc (1, sizeof (struct c12_mfile));
+    (*fh)->amode = amode;
+    (*fh)->comm = comm;
+    if (amode & MPI_MODE_APPEND) {
+      struct stat         st;
+      (*fh)->pos = stat (filename, &st) == 0 ? (long long) st.st_size : 0;
+    }
+    ++G.mopen;
+  }
+  else
+    *fh = MPI_FILE_NULL;
+  snprintf (buf, sizeof buf, "mio %d %d -> %d 0", K_MOPEN, amode, e);
+  emit (buf);
+  return e;
+}
+
+int
+MPI_File_set_size (MPI_File fh, MPI_Offset size)
+{
+  int                 e = MPI_SUCCESS, rank;
+  char                buf[128];
+  MPI_Comm_rank (fh->comm, &rank);
+  MIO_COLLECTIVE_BEGIN (fh->comm);
+  if (rank == 0) {
+    const fault_t      *ft = mio_fault (K_MSETSIZE, 0);
+    if (ft)
+      e = ft->err;
+    else if (!mio_can_write (fh->amode))
+      e = MPI_ERR_READ_ONLY;
+    else if (truncate (G.path, (off_t) size) != 0)
+      e = MPI_ERR_IO;
+  }
+  MIO_COLLECTIVE_END (fh->comm, e);
+  snprintf (buf, sizeof buf, "mio %d %lld -> %d 0", K_MSETSIZE, (long long) size, e);
+  emit (buf);
+  return e;
+}
+
+int
+MPI_File_close (MPI_File * fh)
+{
+  int                 e = MPI_SUCCESS, rank;
+  char                buf[128];
+  MPI_Comm            comm = (*fh)->comm;
+  MPI_Comm_rank (comm, &rank);
+  MIO_COLLECTIVE_BEGIN (comm);
+  if (rank == 0) {
+    const fault_t      *ft = mio_fault (K_MCLOSE, 0);
+    if (ft)
+      e = ft->err;
+  }
+  MIO_COLLECTIVE_END (comm, e);
+  free (*fh);
+  *fh = MPI_FILE_NULL;
+  --G.mopen;
+  snprintf (buf, sizeof buf, "mio %d -> %d 0", K_MCLOSE, e);
+  emit (buf);
+  return e;
+}
+
+/* one rank's transfer; kind decides the fault plan entry; returns the error code, *nbytes = bytes transferred */
+static int
+mio_transfer (MPI_File fh, int kind, int wr, long long off, void *buf, int count, MPI_Datatype t, MPI_Status * status)
+{
+  int                 e = MPI_SUCCESS, tsize = 0, rank = cur_rank ();
+  long long           nbytes = 0;
+  const fault_t      *ft = mio_fault (kind, rank);
+  MPI_Type_size (t, &tsize);
+  if (ft)
+    e = ft->err;
+  else if (wr ? !mio_can_write (fh->amode) : !mio_can_read (fh->amode))
+    e = MPI_ERR_ACCESS;
+  else if (count > 0) {
+    int                 fd = open (G.path, wr ? O_WRONLY : O_RDONLY);
+    if (fd < 0)
+      e = MPI_ERR_IO;
+    else {
+      ssize_t             r = wr ? pwrite (fd, buf, (size_t) count * tsize, (off_t) off) : pread (fd, buf, (size_t) count * tsize, (off_t) off);
+      if (r < 0) e = MPI_ERR_IO; else nbytes = r;
+      close (fd);
+    }
+  }
+  if (status != MPI_STATUS_IGNORE) {
+    memset (status, 0, sizeof *status);
+    status->simmpi_nbytes = (size_t) nbytes;
+  }
+  {
+    size_t              dump = wr ? (size_t) (count > 0 ? count : 0) * tsize : (size_t) nbytes;
+    char               *h = hexdump (buf, dump);
+    char               *line = (char *) malloc (strlen (h) + 160);
+    if (wr)
+      sprintf (line, "mio %d %lld %d %d %s -> %d %lld", kind, off, tsize, count, h, e, nbytes);
+    else
+      sprintf (line, "mio %d %lld %d %d -> %d %lld %s", kind, off, tsize, count, e, nbytes, h);
+    emit (line);
+    free (line);
+    free (h);
+  }
+  return e;
+}
+
+/* a collective transfer: the ranks' transfers take effect one after the other in rank order */
+static int
+mio_transfer_all (MPI_File fh, int kind, int wr, long long off, void *buf, int count, MPI_Datatype t, MPI_Status * status)
+{
+  int                 e = MPI_SUCCESS, rank, size;
+  MPI_Comm_rank (fh->comm, &rank);
+  MPI_Comm_size (fh->comm, &size);
+  for (int r = 0; r < size; ++r) {
+    if (r == rank)
+      e = mio_transfer (fh, kind, wr, off, buf, count, t, status);
+    emit ("mio-hide 1");
+    MPI_Barrier (fh->comm);
+    emit ("mio-hide 0");
+  }
+  return e;
+}
+
+int
+MPI_File_read_at (MPI_File fh, MPI_Offset offset, void *buf, int count, MPI_Datatype t, MPI_Status * status)
+{
+  return mio_transfer (fh, K_MREADAT, 0, offset, buf, count, t, status);
+}
+
+int
+MPI_File_write_at (MPI_File fh, MPI_Offset offset, const void *buf, int count, MPI_Datatype t, MPI_Status * status)
+{
+  return mio_transfer (fh, K_MWRITEAT, 1, offset, (void *) buf, count, t, status);
+}
+
+int
+MPI_File_read_at_all (MPI_File fh, MPI_Offset offset, void *buf, int count, MPI_Datatype t, MPI_Status * status)
+{
+  return mio_transfer_all (fh, K_MREADATALL, 0, offset, buf, count, t, status);
+}
+
+int
+MPI_File_write_at_all (MPI_File fh, MPI_Offset offset, const void *buf, int count, MPI_Datatype t, MPI_Status * status)
+{
+  return mio_transfer_all (fh, K_MWRITEATALL, 1, offset, (void *) buf, count, t, status);
+}
+
+int
+MPI_File_read (MPI_File fh, void *buf, int count, MPI_Datatype t, MPI_Status * status)
+{
+  MPI_Status          st;
+  int                 e = mio_transfer (fh, K_MREAD, 0, fh->pos, buf, count, t, &st);
+  fh->pos += (long long) st.simmpi_nbytes;
+  if (status != MPI_STATUS_IGNORE) *status = st;
+  return e;
+}
+
+int
+MPI_File_write (MPI_File fh, const void *buf, int count, MPI_Datatype t, MPI_Status * status)
+{
+  MPI_Status          st;
+  int                 e = mio_transfer (fh, K_MWRITE, 1, fh->pos, (void *) buf, count, t, &st);
+  fh->pos += (long long) st.simmpi_nbytes;
+  if (status != MPI_STATUS_IGNORE) *status = st;
+  return e;
+}
+
+int
+MPI_File_get_size (MPI_File fh, MPI_Offset * size)
+{
+  struct stat         st;
+  *size = stat (G.path, &st) == 0 ? (MPI_Offset) st.st_size : 0;
+  return MPI_SUCCESS;
+}
+
+int
+MPI_File_set_errhandler (MPI_File fh, MPI_Errhandler eh)
+{
+  return MPI_SUCCESS;
+}
+#endif /* C12_SIMIO */
 
 /* ------------------------------------------------------------------ scenarios */
 typedef struct { char kind; int a, tsize, opid; long off[MAXR]; int count[MAXR]; } op_t;
@@ -654,7 +913,11 @@ main (void)
       for (int i = 0; i < sc.nops; ++i)
         printf ("OUT %d %d %s\n", q, i, sc.res[q][i] ? sc.res[q][i] : "none");
     /* streams the code under test left open (after an abort, or a leak) */
+#ifdef C12_SIMIO
+    printf ("OUT S %d %d %d\n", G.nfopen, G.nfclose, G.mopen);       /* MPI file handles never closed */
+#else
     printf ("OUT S %d %d %d\n", G.nfopen, G.nfclose, G.ntracked);
+#endif
     for (int i = 0; i < G.ntracked; ++i)
       __real_fclose (G.tracked[i]);
     print_file (stdout, &sc);
